@@ -2,7 +2,7 @@
    tokens:   c<t>r | c<t>k<code> | c<t>st | c<t>sp | c<t>sq   application call on task t
              pt pp pq pc<code> pb<code>     peer frame delivered now (text ping pong close bad)
              qt qp qq qc<code> qb<code>     peer frame delivered as a queued callback
-             d  drop connection   x<t> cancel task t   a<dt> advance the clock (units of 1/16 s)
+             d  drop connection   l  local close of the connection by another actor   x<t> cancel task t   a<dt> advance the clock (units of 1/16 s)
              r  run one ready callback (stale timer callbacks are skipped, as asyncio skips cancelled handles)
              /  run the ready queue until idle and print a snapshot
    answer:   snapshots separated by " | " ; "REJECT@<i>" if an event is not enabled *)
@@ -53,6 +53,7 @@ let event_of tok =
   | 'p' -> EPeer (peer_of tok)
   | 'q' -> EPeerQ (peer_of tok)
   | 'd' -> EDrop
+  | 'l' -> ELocalClose
   | 'x' -> ECancel (nat_of_int (num tok 1))
   | 'a' -> EAdvance (n_of_int (num tok 1))
   | _ -> failwith "token"
